@@ -497,6 +497,63 @@ def run_c18(ctx):
                      'reader half: deliveries before the failing call are compared with the fault-free run of the same configuration'])
 
 
+# ------------------------------------------------------------------ codec properties
+def run_c10(ctx):
+    build_harness(ctx)
+    quick = ctx.tier == 'quick'
+    model_check(ctx, 'CRCProps', 'CRCProps.cfg', workers=4)
+    scs = [{'sid': 'crc-table', 'kind': 'crc', 'part': 'table', 'seed': ctx.seed}]
+    nb = 4 if quick else 16
+    for i in range(nb):
+        scs.append({'sid': 'crc-basis-%d' % i, 'kind': 'crc', 'part': 'basis', 'seed': ctx.seed + i, 'n': 40 if quick else 400})
+    # all messages of length 0..2: 1 + 256 + 65536 = 65793 indices
+    hi = 65793 if not quick else 257 + 4096
+    step = 2048
+    for lo in range(0, hi, step):
+        scs.append({'sid': 'crc-short-%d' % lo, 'kind': 'crc', 'part': 'short', 'seed': ctx.seed, 'lo': lo, 'hi': min(hi, lo + step)})
+    for i in range(16 if quick else 64):
+        scs.append({'sid': 'crc-msgs-%d' % i, 'kind': 'crc', 'part': 'msgs', 'seed': ctx.seed * 131 + i, 'n': 12 if quick else 320, 'max': 512 if quick else 4096})
+    return pipeline(
+        ctx, 'Mon_C10', 'crc', scs,
+        rule='all 256 table entries; single-step (state, byte) pairs for the zero state, the 32 single-bit states and all-ones x all 256 bytes (an affine '
+             'map over GF(2) is determined by these) plus seeded random states; every message of length 0..2 (quick: 0..1 and the first 4096 of length 2); '
+             'seeded random messages up to 512 B (quick) / 4 KiB with every split point; each value recomputed bit by bit by TLC',
+        exhaustive=False,
+        assumptions=['the 2^32 x 256 single-step space is covered by a GF(2)-basis of states plus random states, not enumerated (DESIGN.md 6)'])
+
+
+def ranged(part, lo, hi, chunk, seed, step=1, prefix='dvb'):
+    out = []
+    for a in range(lo, hi, chunk):
+        out.append({'sid': '%s-%s-%d' % (prefix, part, a), 'kind': prefix, 'part': part, 'seed': seed, 'lo': a, 'hi': min(hi, a + chunk), 'step': step})
+    return out
+
+
+def run_c15(ctx):
+    build_harness(ctx)
+    quick = ctx.tier == 'quick'
+    model_check(ctx, 'DVBWalk', 'DVBWalk.cfg', workers=1)      # Annex C integer formulas = calendar walk on all 50 457 days
+    sd = ctx.seed
+    scs = []
+    scs += ranged('days', 15079, 65536, 2048, sd)
+    scs += ranged('times', 0, 86400, 5400, sd, step=5 if quick else 1)
+    scs += ranged('encdays', 15079, 65536, 4096, sd, step=3 if quick else 1)
+    scs += ranged('enctimes', 0, 86400, 10800, sd, step=11 if quick else 1)
+    scs += ranged('dur16', 0, 10000, 2500, sd)
+    scs += ranged('dur24', 0, 1000000, 62500, sd, step=13 if quick else 1)
+    scs += ranged('raw16', 0, 65536, 8192, sd)
+    scs += ranged('raw24', 0, 1 << 24, 1 << 20, sd, step=997 if quick else 5)
+    scs += ranged('wdur', 0, 360000, 22500, sd, step=37 if quick else 1)
+    return pipeline(
+        ctx, 'Mon_C15', 'dvb', scs,
+        rule='decode: every MJD 15079..65535 at 00:00:00, 12:45:00, 23:59:59; every 5th (quick) / every second of the day on 7 days; encode: every 3rd '
+             '(quick) / every day at 3 times, every 11th / every second on 4 days; all 10^4 hh:mm and every 13th / all 10^6 hh:mm:ss BCD durations; all '
+             '2^16 and every 997th / 5th of the 2^24 raw patterns; duration encoding for every 37th / every value up to 99:59:59. Expected values by '
+             'TLC from the Annex C integer formulas (validated against a calendar walk) and digit-wise BCD',
+        exhaustive=False,
+        assumptions=['encoding is checked for UTC time.Time values', 'for raw (non-BCD) nibbles the digit-wise value hi*10+lo is the definition'])
+
+
 PROPS = {
     'C01': lambda ctx: run_mux_family(ctx, 'C01'),
     'C04': lambda ctx: run_mux_family(ctx, 'C04'),
@@ -510,4 +567,6 @@ PROPS = {
     'C20': run_c20,
     'C08': run_c08,
     'C03': run_c03,
+    'C10': run_c10,
+    'C15': run_c15,
 }
